@@ -24,6 +24,9 @@ EXPLANATION = (
     'up to an integer group factor of the loop stride; (c) the row read lands at row n of the 16x16 assembly and the '
     'z-th unit of column u goes to unit u of the new block (strides chunk_bytes / unit_bytes). C12.5: the source bytes '
     'come through the length-checked range-read primitive.')
+EXPLANATION += (
+    ' ADDED: C12.3 follows footer helpers of the same class and includes the order, one-key-per-array and full-grid-array (include_padding=True) clauses of C03.5. The unit-count idiom -(-a // b) is accepted as a ceiling.'
+)
 ASSUMPTIONS = ['a 64x64x4 block at 2 bits is 16x16x1 compression units of 16 bytes in C order', 'the source is a default-layout file (guarded)']
 NOT_DECIDED = 'Bitwise equality of the volumes; re-blocking of irregular sources (masked footer arrays) is not examined.'
 
